@@ -52,6 +52,17 @@ CHECKS = {
         "note": "Trusted: Python ast, E1 resolver, int() on non-negative arguments canonicalised with floor division, reference forms entered from the property statement.",
         "technique": "static analysis: polynomial-normal-form constant propagation over kernels and class-layer properties + canonical-form equality; composition by substitution; normalised guard comparison; keyword wiring rule",
     },
+    "C09": {
+        "text": "Decides, for every mask, per-pixel sub-size map, anisotropic scales and origin: the five over-sampling kernels traverse pixels in slim order and, inside each pixel, y1 outer / x1 inner over range(sub) with "
+                "sub = sub_size[slim index], both counters advancing by exactly 1 at their own depth; the sub-pixel centre equals y = oy + ((H-1)/2 - y)s0 + s0/2 - (y1+1/2)s0/sub, x = ox + (x-(W-1)/2)s1 - s1/2 + (x1+1/2)s1/sub "
+                "(canonical-form equality: uniform sub x sub partition, top-to-bottom then left-to-right); binning accumulates value[sub index]/sub^2 into out[slim index] onto zeros (the exact mean of the pixel's own sub-values); "
+                "index tables hold the slim / native sub index; OverSamplerUniform hands its own mask, scales, sub-size map and mask origin to the kernels and returns on its mask; sub-pixel areas = area/sub^2 repeated sub^2 times; "
+                "the decorator evaluates the undecorated function on over_sampled_grid and passes the result untouched to the binning, with plain evaluation when sub-size is 1; the iterative scheme's comparator (ratio lower/higher "
+                "inverted when > 1, 0 unless lower > 0, < threshold; |difference| > tolerance; unmasked pixels only; value taken when newly resolved). Not decided: which level each pixel finally receives as a property of the "
+                "whole loop over masks, what user functions do.",
+        "note": "Trusted: Python ast, E1 resolver, numpy indexing semantics, reference forms from the property statement.",
+        "technique": "static analysis: traversal typestate for slim and sub-pixel counters + polynomial-normal-form equality of stored payloads; pass-through / wiring rules on the class layer; normalised comparator structure",
+    },
 }
 
 NOT_APPLICABLE = {f"C{n:02d}": PENDING for n in range(1, 21) if f"C{n:02d}" not in CHECKS}
